@@ -300,6 +300,24 @@ def direct_use(ctx, rng):
                               {"type": t, "endian": endian, "data": data.hex(), "error": lib.exc_sig(e)})
 
 
+def void_arrays(ctx):
+    """Arrays of void occupy nothing; the null-terminated one is empty (a void is the zero element) and reads back."""
+    for compiled in (True, False):
+        ctx.evaluation(("void-arrays", compiled))
+        ctx.cell("void-arrays")
+        try:
+            cs = lib.load("struct V { uint8 h; void v[]; void w[3]; uint8 t; };", "<", False, compiled)
+            o = cs.V(b"\x05\x06")
+            d = cs.V(h=1, v=[], t=2).dumps()
+            got = (len(o.v), len(o.w), int(o.t), len(cs.void[None](b"abc")), d, cs.V(d) == cs.V(h=1, v=[], t=2))
+        except Exception as e:  # noqa: BLE001
+            got = lib.exc_sig(e)
+        if got != (0, 3, 6, 0, b"\x01\x02", True):
+            ctx.violation("void-arrays", "void-array-does-not-read-back", {"got": repr(got), "compiled": compiled, "workload": "void-arrays"})
+        else:
+            ctx.event("void_arrays_checked")
+
+
 def enum_counts(ctx):
     """An array type made through the API with an enum / flag member (or a constant of an anonymous enum) as its count
     has that many entries, for every element type, and reads and dumps like the one made with the plain integer."""
@@ -339,6 +357,9 @@ def shadowing(ctx):
             ("#define n 3\nstruct T { uint8 n; uint8 a[n * 2 + 1]; uint8 t; };", bytes([0, 9, 8, 7, 6]), ([9], 8)),
             ("#define n 3\nstruct T { uint8 n; uint8 a[n + 1]; uint8 t; };", bytes([1, 9, 8, 7, 6, 5]), ([9, 8], 7)),
             ("#define k 2\nstruct T { uint8 n; uint8 a[n + k]; uint8 t; };", bytes([1, 9, 8, 7, 6, 5]), ([9, 8, 7], 6)),
+            # a char / wchar field counts by its character code
+            ("struct T { char n; uint8 a[n]; uint8 t; };", bytes([2, 9, 8, 7]), ([9, 8], 7)),
+            ("struct T { wchar n; uint8 a[n & 3]; uint8 t; };", bytes([0x32, 0, 9, 8, 7]), ([9, 8], 7)),
             # the operand of sizeof() names a type even if a preceding field has the same name (static size kept)
             ("struct n { uint8 q; uint8 r; };\nstruct T { n n; uint8 a[sizeof(n)]; uint8 t; };", bytes([1, 2, 9, 8, 7]),
              ([9, 8], 7)),
@@ -400,6 +421,7 @@ def run(ctx):
         shadowing(ctx)
         folded_length_source(ctx)
         enum_counts(ctx)
+        void_arrays(ctx)
     # the element kind x length form matrix, every cell on every run
     cells = []
     tmp = gen.Gen(ctx.rng("kinds"))
